@@ -20,8 +20,14 @@
                                stanza's start token, error collection, and the
                                "only start and end were read" wildcard rule
 
-   A token reader is a residual token list plus a terminal condition
-   (uerr = false: io.EOF, true: some other error).  Handlers are scripted: the
+   A token reader is a residual token list plus a terminal condition [term]:
+   which error ends it (t_err = false: io.EOF, true: some other error) and how
+   (t_with = false: a separate, later call returns (nil, err), as xml.Decoder
+   does; t_with = true: the LAST token is returned together with the error, as
+   xml.TokenReader permits and readers built with xmlstream.Wrap / Token /
+   stanza.Message.Wrap do).  Every layer (bufReader, Inner, InnerElement, Iter,
+   Copy, TrimLeftSpace, iqRouter) is modelled on results (token, error) with
+   both present.  Handlers are scripted: the
    k-th invoked handler makes hb_reads calls to Token() and returns an error
    iff hb_fail.  Handler id 0 stands for a nil function wrapped in a non-nil
    interface (calling it panics). *)
@@ -162,60 +168,80 @@ Definition tok_eqb (a b : tok) : bool :=
   | _, _ => false
   end.
 
-Inductive rd (St : Type) := RTok (t : tok) (s : St) | REof (s : St) | RErr (s : St).
-Arguments RTok {St} t s.
+(* one call to Token(): RTok t e s = (t, e) with t non-nil, where e is the error
+   returned BY THE SAME CALL (None: nil, Some false: io.EOF, Some true: another
+   error); REof = (nil, io.EOF); RErr = (nil, another error) *)
+Inductive rd (St : Type) := RTok (t : tok) (e : option bool) (s : St) | REof (s : St) | RErr (s : St).
+Arguments RTok {St} t e s.
 Arguments REof {St} s.
 Arguments RErr {St} s.
 
-(* the reader handed to HandleXMPP: the element's remaining tokens, then the
-   terminal condition for ever *)
-Definition u_token (uerr : bool) (u : list tok) : rd (list tok) :=
-  match u with
-  | x :: u' => RTok x u'
-  | [] => if uerr then RErr [] else REof []
+(* terminal condition of the reader handed to HandleXMPP *)
+Record term := mkterm {
+  t_err : bool;    (* false: io.EOF; true: some other error *)
+  t_with : bool    (* the error comes together with the last token, not by a later call *)
+}.
+
+(* the reader handed to HandleXMPP: the element's remaining tokens, the last one
+   possibly together with the terminal error, then (nil, error) for ever *)
+(* the error returned together with a token after which u' remains *)
+Definition fin_err (tm : term) (u' : list tok) : option bool :=
+  match u' with
+  | [] => if t_with tm then Some (t_err tm) else None
+  | _ :: _ => None
   end.
 
-(* k calls to Token(); reading stops at the first call that yields no token *)
+Definition u_token (tm : term) (u : list tok) : rd (list tok) :=
+  match u with
+  | x :: u' => RTok x (fin_err tm u') u'
+  | [] => if t_err tm then RErr [] else REof []
+  end.
+
+(* k calls to Token() by a handler: it keeps every token it is given, whatever
+   error comes with it, and stops at the first call that yields no token *)
 Fixpoint take_n {St : Type} (rdr : St -> rd St) (k : nat) (s : St) : list tok * St :=
   match k with
   | 0 => ([], s)
   | S k' =>
       match rdr s with
-      | RTok t s' => let '(l, s'') := take_n rdr k' s' in (t :: l, s'')
+      | RTok t _ s' => let '(l, s'') := take_n rdr k' s' in (t :: l, s'')
       | REof s' => ([], s')
       | RErr s' => ([], s')
       end
   end.
 
 (* xmlstream.Inner (outer = false) and InnerElement (outer = true): count = None
-   stands for count < 0 *)
+   stands for count < 0.  (t, err) of the underlying reader is passed on as it
+   is, except that Inner turns the closing end element into (nil, io.EOF)
+   whatever error came with it. *)
 Definition inner_token {St : Type} (base : St -> rd St) (outer : bool) (cs : option nat * St) : rd (option nat * St) :=
   let '(c, s) := cs in
   match c with
   | None => REof (None, s)
   | Some n =>
       match base s with
-      | RTok (TStart nm) s' => RTok (TStart nm) (Some (S n), s')
-      | RTok TEnd s' =>
+      | RTok (TStart nm) e s' => RTok (TStart nm) e (Some (S n), s')
+      | RTok TEnd e s' =>
           match n with
-          | 0 => if outer then RTok TEnd (None, s') else REof (None, s')
-          | S m => RTok TEnd (Some m, s')
+          | 0 => if outer then RTok TEnd e (None, s') else REof (None, s')
+          | S m => RTok TEnd e (Some m, s')
           end
-      | RTok t s' => RTok t (Some n, s')
+      | RTok t e s' => RTok t e (Some n, s')
       | REof s' => REof (Some n, s')
       | RErr s' => RErr (Some n, s')
       end
   end.
 
 (* decl.TrimLeftSpace before its first start element: whitespace-only character
-   data is dropped (the Go method recurs; fuel bounds the recursion). None = out
-   of fuel. *)
+   data is dropped (the Go method recurs; fuel bounds the recursion); if it came
+   with an error, (nil, err) is returned. None = out of fuel. *)
 Fixpoint trim_first {St : Type} (base : St -> rd St) (fuel : nat) (s : St) : option (rd St) :=
   match fuel with
   | 0 => None
   | S f =>
       match base s with
-      | RTok (TText true) s' => trim_first base f s'
+      | RTok (TText true) None s' => trim_first base f s'
+      | RTok (TText true) (Some e) s' => Some (if e then RErr s' else REof s')
       | r => Some r
       end
   end.
@@ -304,11 +330,11 @@ Definition cons_event (e : event) (o : outcome) : outcome := mkout (e :: o_event
 
 (* ---- top-level handlers ---- *)
 
-Definition run_top (h : hid) (sn : name) (toks : list tok) (uerr : bool) (script : list hbeh) : outcome :=
+Definition run_top (h : hid) (sn : name) (toks : list tok) (tm : term) (script : list hbeh) : outcome :=
   match h with
   | 0 => out_panic
   | _ => let '(b, _) := next_beh script in
-         let '(got, _) := take_n (u_token uerr) (hb_reads b) toks in
+         let '(got, _) := take_n (u_token tm) (hb_reads b) toks in
          mkout [EvTop h sn got] [] (ret_of b)
   end.
 
@@ -320,37 +346,47 @@ Definition iq_fallback (sn : name) (h : hdr) : outcome :=
     let '(to, from) := if fallback_swaps_addresses then (h_from h, h_to h) else (h_to h, h_from h) in
     mkout [] [mkreply (fst sn) fallback_reply_type to from (h_id h) (h_lang h) fallback_error_type fallback_condition] RetOk.
 
-Definition iq_reader (uerr : bool) : option nat * list tok -> rd (option nat * list tok) :=
-  inner_token (u_token uerr) false.
+Definition iq_reader (tm : term) : option nat * list tok -> rd (option nat * list tok) :=
+  inner_token (u_token tm) false.
 
 (* the chosen IQ handler (or the fallback) is invoked; payload = None for an
    empty result IQ *)
-Definition invoke_iq (r : registry) (sn : name) (h : hdr) (payload : option name) (uerr : bool)
+Definition invoke_iq (r : registry) (sn : name) (h : hdr) (payload : option name) (tm : term)
   (st : option nat * list tok) (script : list hbeh) : outcome :=
   match lookup_iq r (h_type h) (match payload with Some n => n | None => ([], []) end) with
   | None => iq_fallback sn h
   | Some 0 => out_panic
   | Some hd =>
       let '(b, _) := next_beh script in
-      let '(got, _) := take_n (iq_reader uerr) (hb_reads b) st in
+      let '(got, _) := take_n (iq_reader tm) (hb_reads b) st in
       mkout [EvIq hd (h_type h) payload got] [] (ret_of b)
   end.
 
-Definition iq_router (r : registry) (sn : name) (attrs : list attr) (toks : list tok) (uerr : bool)
+Definition iq_router (r : registry) (sn : name) (attrs : list attr) (toks : list tok) (tm : term)
   (script : list hbeh) : outcome :=
   match new_iq sn attrs with
   | None => out_err
   | Some h =>
-      match trim_first (iq_reader uerr) (S (length toks)) (Some 0, toks) with
+      match trim_first (iq_reader tm) (S (length toks)) (Some 0, toks) with
       | None => out_fuel
-      | Some (RTok (TStart n) st) => invoke_iq r sn h (Some n) uerr st script
-      | Some (RTok _ _) =>
+      | Some (RTok _ (Some true) _) => out_err      (* err != nil && err != io.EOF *)
+      | Some (RTok (TStart n) None st) => invoke_iq r sn h (Some n) tm st script
+      | Some (RTok _ None _) =>
           (* "invalid payload": no pattern can match; answered by the fallback,
              and the router returns an error *)
           let o := iq_fallback sn h in mkout [] (o_replies o) RetErr
+      | Some (RTok t (Some false) st) =>
+          (* a token together with io.EOF: the test for the empty IQ looks at the
+             error only *)
+          if bytes_eqb (h_type h) iqtype_result then
+            match t with
+            | TStart n => invoke_iq r sn h (Some n) tm st script
+            | _ => let o := iq_fallback sn h in mkout [] (o_replies o) RetErr
+            end
+          else let o := iq_fallback sn h in mkout [] (o_replies o) RetErr
       | Some (RErr _) => out_err
       | Some (REof st) =>
-          if bytes_eqb (h_type h) iqtype_result then invoke_iq r sn h None uerr st script
+          if bytes_eqb (h_type h) iqtype_result then invoke_iq r sn h None tm st script
           else
             (* an IQ that may not be empty: answered by the fallback, and the
                router returns an error that is not the bare io.EOF *)
@@ -362,13 +398,20 @@ Definition iq_router (r : registry) (sn : name) (attrs : list attr) (toks : list
 
 Record breader := mkbr { b_buf : list tok; b_off : nat; b_und : list tok }.
 
-Definition b_token (uerr : bool) (b : breader) : rd breader :=
+(* replayed tokens come without an error; a token obtained from the underlying
+   reader is appended to the buffer and handed on with whatever error came with
+   it (gen/Mux.v: the append happens before the error is looked at) *)
+Definition b_token (tm : term) (b : breader) : rd breader :=
   if b_off b <? length (b_buf b) then
-    RTok (nth (b_off b) (b_buf b) TOther) (mkbr (b_buf b) (S (b_off b)) (b_und b))
+    RTok (nth (b_off b) (b_buf b) TOther) None (mkbr (b_buf b) (S (b_off b)) (b_und b))
   else
-    match b_und b with
-    | x :: u => RTok x (mkbr (b_buf b ++ [x]) (S (b_off b)) u)
-    | [] => if uerr then RErr b else REof b
+    match u_token tm (b_und b) with
+    | RTok x e u =>
+        if bufreader_buffers_token_with_error || (match e with None => true | Some _ => false end)
+        then RTok x e (mkbr (b_buf b ++ [x]) (S (b_off b)) u)
+        else RTok x e (mkbr (b_buf b) (b_off b) u)
+    | REof _ => REof b
+    | RErr _ => RErr b
     end.
 
 (* Iter: i.r = Inner(r) with count it_cnt; cur = InnerElement(i.r) for an
@@ -377,17 +420,20 @@ Inductive cur := CNone | CElem (c : option nat) | CTok.
 
 Record iter := mkiter { it_cnt : option nat; it_cur : cur; it_b : breader }.
 
-Definition ir_token (uerr : bool) : option nat * breader -> rd (option nat * breader) :=
-  inner_token (b_token uerr) false.
+Definition ir_token (tm : term) : option nat * breader -> rd (option nat * breader) :=
+  inner_token (b_token tm) false.
 
-(* Copy(discard, cur) for an element child; Some err *)
-Fixpoint drain_elem (uerr : bool) (fuel : nat) (s : option nat * (option nat * breader))
+(* Copy(discard, cur) for an element child; Some err.  Copy stops at an error
+   other than io.EOF (dropping the token that came with it), and after a token
+   that came with io.EOF (without error). *)
+Fixpoint drain_elem (tm : term) (fuel : nat) (s : option nat * (option nat * breader))
   : option (bool * (option nat * breader)) :=
   match fuel with
   | 0 => None
   | S f =>
-      match inner_token (ir_token uerr) true s with
-      | RTok _ s' => drain_elem uerr f s'
+      match inner_token (ir_token tm) true s with
+      | RTok _ None s' => drain_elem tm f s'
+      | RTok _ (Some e) (_, s') => Some (e, s')
       | REof (_, s') => Some (false, s')
       | RErr (_, s') => Some (true, s')
       end
@@ -395,20 +441,24 @@ Fixpoint drain_elem (uerr : bool) (fuel : nat) (s : option nat * (option nat * b
 
 Inductive nres := NOutOfFuel | NStop (err : bool) (it : iter) | NItem (start : option name) (it : iter).
 
-Definition iter_next (uerr : bool) (fuel : nat) (it : iter) : nres :=
+Definition iter_next (tm : term) (fuel : nat) (it : iter) : nres :=
   let drained :=
     match it_cur it with
-    | CElem c => drain_elem uerr fuel (c, (it_cnt it, it_b it))
+    | CElem c => drain_elem tm fuel (c, (it_cnt it, it_b it))
     | _ => Some (false, (it_cnt it, it_b it))
     end in
   match drained with
   | None => NOutOfFuel
   | Some (true, (c, b)) => NStop true (mkiter c (it_cur it) b)
   | Some (false, s) =>
-      match ir_token uerr s with
-      | RTok (TStart nm) (c', b') => NItem (Some nm) (mkiter c' (CElem (Some 0)) b')
-      | RTok TEnd (c', b') => NStop false (mkiter c' (it_cur it) b')
-      | RTok _ (c', b') => NItem None (mkiter c' CTok b')
+      match ir_token tm s with
+      | RTok _ (Some e) (c', b') =>
+          (* err != nil: Next returns false whatever the token is; only an error
+             other than io.EOF is kept in i.err *)
+          NStop e (mkiter c' (it_cur it) b')
+      | RTok (TStart nm) None (c', b') => NItem (Some nm) (mkiter c' (CElem (Some 0)) b')
+      | RTok TEnd None (c', b') => NStop false (mkiter c' (it_cur it) b')
+      | RTok _ None (c', b') => NItem None (mkiter c' CTok b')
       | REof (c', b') => NStop false (mkiter c' (it_cur it) b')
       | RErr (c', b') => NStop true (mkiter c' (it_cur it) b')
       end
@@ -418,6 +468,14 @@ Inductive skind := SMsg | SPres.
 
 Definition lookup_child (r : registry) (k : skind) (typ : bytes) (n : name) : option hid :=
   match k with SMsg => lookup_msg r typ n | SPres => lookup_pres r typ n end.
+
+(* the name handed to MessageHandler / PresenceHandler for the empty stanza, as
+   written in the source (gen/Mux.v): the zero xml.Name, or the stanza's own *)
+Definition wildcard_arg (k : skind) : name_src :=
+  match k with SMsg => wildcard_lookup_arg_message | SPres => wildcard_lookup_arg_presence end.
+
+Definition src_name (s : name_src) (sn : name) : name :=
+  match s with NsStanza => sn | _ => ([], []) end.
 
 Definition child_event (k : skind) (h : hid) (typ : bytes) (got : list tok) : event :=
   match k with SMsg => EvMsg h typ got | SPres => EvPres h typ got end.
@@ -436,34 +494,34 @@ Definition l_cons (e : event) (l : lres) : lres :=
   | LDone evs b ie f => LDone (e :: evs) b ie f
   end.
 
-Fixpoint fc_loop (uerr : bool) (r : registry) (k : skind) (typ : bytes) (fuel : nat) (it : iter)
+Fixpoint fc_loop (tm : term) (r : registry) (k : skind) (typ : bytes) (fuel : nat) (it : iter)
   (script : list hbeh) (failed : bool) : lres :=
   match fuel with
   | 0 => LFuel
   | S f =>
-      match iter_next uerr f it with
+      match iter_next tm f it with
       | NOutOfFuel => LFuel
       | NStop err it' => LDone [] (it_b it') err failed
-      | NItem None it' => fc_loop uerr r k typ f it' script failed
+      | NItem None it' => fc_loop tm r k typ f it' script failed
       | NItem (Some nm) it' =>
           match lookup_child r k typ nm with
-          | None => fc_loop uerr r k typ f it' script failed          (* nopHandler *)
+          | None => fc_loop tm r k typ f it' script failed          (* nopHandler *)
           | Some 0 => LPanic []
           | Some h =>
               let '(b, script') := next_beh script in
               (* br := &bufReader{r: t, buf: r.buf}; ...; r.buf = br.buf *)
-              let '(got, br) := take_n (b_token uerr) (hb_reads b) (mkbr (b_buf (it_b it')) 0 (b_und (it_b it'))) in
+              let '(got, br) := take_n (b_token tm) (hb_reads b) (mkbr (b_buf (it_b it')) 0 (b_und (it_b it'))) in
               let it'' := mkiter (it_cnt it') (it_cur it') (mkbr (b_buf br) (b_off (it_b it')) (b_und br)) in
-              l_cons (child_event k h typ got) (fc_loop uerr r k typ f it'' script' (failed || hb_fail b))
+              l_cons (child_event k h typ got) (fc_loop tm r k typ f it'' script' (failed || hb_fail b))
           end
       end
   end.
 
 (* scripts consumed by the loop: one entry per invoked handler *)
-Definition for_children (r : registry) (k : skind) (sn : name) (typ : bytes) (toks : list tok) (uerr : bool)
+Definition for_children (r : registry) (k : skind) (sn : name) (typ : bytes) (toks : list tok) (tm : term)
   (script : list hbeh) : outcome :=
   let it0 := mkiter (Some 0) CNone (mkbr [TStart sn] 1 toks) in
-  match fc_loop uerr r k typ (length toks + 3) it0 script false with
+  match fc_loop tm r k typ (length toks + 3) it0 script false with
   | LFuel => out_fuel
   | LPanic evs => mkout evs [] RetPanic
   | LDone evs b iter_err failed =>
@@ -471,29 +529,29 @@ Definition for_children (r : registry) (k : skind) (sn : name) (typ : bytes) (to
       else if failed then mkout evs [] RetErr
       else if length (b_buf b) =? 2 then
         (* only the start and end tokens were read: type wildcard *)
-        match lookup_child r k typ ([], []) with
+        match lookup_child r k typ (src_name (wildcard_arg k) sn) with
         | None => mkout evs [] RetOk
         | Some 0 => mkout evs [] RetPanic
         | Some h =>
             let '(bh, _) := next_beh (skipn (length evs) script) in
-            let '(got, _) := take_n (b_token uerr) (hb_reads bh) (mkbr (b_buf b) 0 (b_und b)) in
+            let '(got, _) := take_n (b_token tm) (hb_reads bh) (mkbr (b_buf b) 0 (b_und b)) in
             mkout (evs ++ [child_event k h typ got]) [] (ret_of bh)
         end
       else mkout evs [] RetOk
   end.
 
-Definition msg_router (r : registry) (sn : name) (attrs : list attr) (toks : list tok) (uerr : bool)
+Definition msg_router (r : registry) (sn : name) (attrs : list attr) (toks : list tok) (tm : term)
   (script : list hbeh) : outcome :=
   match new_message sn attrs with
   | None => out_err
-  | Some h => for_children r SMsg sn (h_type h) toks uerr script
+  | Some h => for_children r SMsg sn (h_type h) toks tm script
   end.
 
-Definition pres_router (r : registry) (sn : name) (attrs : list attr) (toks : list tok) (uerr : bool)
+Definition pres_router (r : registry) (sn : name) (attrs : list attr) (toks : list tok) (tm : term)
   (script : list hbeh) : outcome :=
   match new_presence sn attrs with
   | None => out_err
-  | Some h => for_children r SPres sn (h_type h) toks uerr script
+  | Some h => for_children r SPres sn (h_type h) toks tm script
   end.
 
 (* ---- ServeMux.HandleXMPP ---- *)
@@ -507,17 +565,17 @@ Fixpoint router_of (local : bytes) (m : list (bytes * bytes)) : option bytes :=
   | (l, rt) :: m' => if bytes_eqb local l then Some rt else router_of local m'
   end.
 
-Definition handle (r : registry) (ns : bytes) (sn : name) (attrs : list attr) (toks : list tok) (uerr : bool)
+Definition handle (r : registry) (ns : bytes) (sn : name) (attrs : list attr) (toks : list tok) (tm : term)
   (script : list hbeh) : outcome :=
   match lookup_top r sn with
-  | Some h => run_top h sn toks uerr script
+  | Some h => run_top h sn toks tm script
   | None =>
       if stanza_is sn ns then
         match router_of (snd sn) router_map with
         | Some rt =>
-            if bytes_eqb rt (str "iqRouter") then iq_router r sn attrs toks uerr script
-            else if bytes_eqb rt (str "msgRouter") then msg_router r sn attrs toks uerr script
-            else if bytes_eqb rt (str "presenceRouter") then pres_router r sn attrs toks uerr script
+            if bytes_eqb rt (str "iqRouter") then iq_router r sn attrs toks tm script
+            else if bytes_eqb rt (str "msgRouter") then msg_router r sn attrs toks tm script
+            else if bytes_eqb rt (str "presenceRouter") then pres_router r sn attrs toks tm script
             else out_nothing
         | None => out_nothing
         end
@@ -591,7 +649,7 @@ Definition outcome_eqb (a b : outcome) : bool :=
    registration success and outcome *)
 Record dcase := mkdcase {
   d_ops : list regop; d_ns : bytes; d_name : name; d_attrs : list attr; d_toks : list tok;
-  d_uerr : bool; d_script : list hbeh;
+  d_tm : term; d_script : list hbeh;
   d_regok : bool; d_obs : outcome }.
 
 Definition dcase_ok (c : dcase) : bool :=
@@ -599,7 +657,7 @@ Definition dcase_ok (c : dcase) : bool :=
   | None => negb (d_regok c)
   | Some r =>
       d_regok c &&
-      outcome_eqb (handle r (d_ns c) (d_name c) (d_attrs c) (d_toks c) (d_uerr c) (d_script c)) (d_obs c)
+      outcome_eqb (handle r (d_ns c) (d_name c) (d_attrs c) (d_toks c) (d_tm c) (d_script c)) (d_obs c)
   end.
 
 (* lookup case: options, table, type, queries with the observed handler
